@@ -119,10 +119,32 @@ def _load_configuration(path):
         loader.load_plugins = orig
 
 
-def _utc():
-    if os.environ.get('TZ') != 'UTC':
-        os.environ['TZ'] = 'UTC'
+# server time zones (process TZ of the code under test): UTC, west / east of UTC, with and without DST
+ZONES = ['UTC', 'America/Los_Angeles', 'America/Phoenix', 'America/Sao_Paulo', 'Europe/Berlin', 'Asia/Kolkata',
+         'Asia/Tokyo', 'Pacific/Auckland']
+
+
+def _set_tz(zone):
+    """make `zone` the process time zone; returns the previous TZ value for _restore_tz"""
+    prev = os.environ.get('TZ')
+    os.environ['TZ'] = zone
     time.tzset()
+    if zone != 'UTC' and time.localtime(1500000000).tm_gmtoff == 0:
+        _restore_tz(prev)
+        raise core.HarnessError('TZ=%s is not in effect (tz database missing?)' % zone)
+    return prev
+
+
+def _restore_tz(prev):
+    if prev is None:
+        os.environ.pop('TZ', None)
+    else:
+        os.environ['TZ'] = prev
+    time.tzset()
+
+
+def _local_string(ts):
+    return time.strftime('%Y-%m-%d %H:%M:%S', time.localtime(int(ts // 1)))
 
 
 # ------------------------------------------------------------------------------------------------
@@ -145,6 +167,32 @@ def grid_defs(draw, kinds):
         g['h'] = draw(st.sampled_from([256000.0, 100000.0, 180000.0, 333333.3]))
         g['origin'] = draw(st.sampled_from(['sw', 'nw']))
     return g
+
+
+def _draw_levels(draw, content, n):
+    ncl = len(content)
+    lk = draw(st.sampled_from(['none', 'list', 'list', 'list', 'list', 'list', 'range', 'range', 'range', 'range', 'res_range', 'res_range']))
+    if lk == 'none':
+        return None
+    elif lk == 'list':
+        sub = draw(st.lists(st.sampled_from(content), min_size=1, max_size=max(1, min(3, ncl - 1)), unique=True))
+        extra = draw(st.lists(st.integers(-1, n + 1), max_size=2))
+        return ['list', sub + extra]
+    elif lk == 'range':
+        a = draw(st.sampled_from([None, None] + content * 6 + [n]))
+        b = draw(st.sampled_from([None, None] + [c for c in content if a is None or c >= a] * 6 + [n + 2, 0]))
+        if a is None and b is None:
+            b = content[0]
+        return ['range', a, b]
+    else:
+        a = draw(st.sampled_from(content))
+        b = draw(st.sampled_from([c for c in content if c >= a]))
+        ab = draw(st.sampled_from([(a, b), (a, b), (a, None), (None, b)]))
+        if ab[0] is None and b == n - 1:
+            ab = (a, b)
+        if ab[1] is None and a == 0:
+            ab = (a, b)
+        return ['res_range', ab[0], ab[1]]
 
 
 @st.composite
@@ -175,28 +223,7 @@ def cases(draw, only_tilewalk=False):
     case['t_future'] = draw(st.booleans())   # only for backends without timestamps that accept remove_before
 
     # level selection
-    lk = draw(st.sampled_from(['none', 'list', 'list', 'list', 'list', 'list', 'range', 'range', 'range', 'range', 'res_range', 'res_range']))
-    if lk == 'none':
-        case['levels'] = None
-    elif lk == 'list':
-        sub = draw(st.lists(st.sampled_from(content), min_size=1, max_size=max(1, min(3, ncl - 1)), unique=True))
-        extra = draw(st.lists(st.integers(-1, n + 1), max_size=2))
-        case['levels'] = ['list', sub + extra]
-    elif lk == 'range':
-        a = draw(st.sampled_from([None, None] + content * 6 + [n]))
-        b = draw(st.sampled_from([None, None] + [c for c in content if a is None or c >= a] * 6 + [n + 2, 0]))
-        if a is None and b is None:
-            b = content[0]
-        case['levels'] = ['range', a, b]
-    else:
-        a = draw(st.sampled_from(content))
-        b = draw(st.sampled_from([c for c in content if c >= a]))
-        ab = draw(st.sampled_from([(a, b), (a, b), (a, None), (None, b)]))
-        if ab[0] is None and b == n - 1:
-            ab = (a, b)
-        if ab[1] is None and a == 0:
-            ab = (a, b)
-        case['levels'] = ['res_range', ab[0], ab[1]]
+    case['levels'] = _draw_levels(draw, content, n)
 
     # coverage
     if draw(st.integers(0, 99)) < (0 if only_tilewalk else 45):
@@ -242,6 +269,28 @@ def cases(draw, only_tilewalk=False):
             st.tuples(st.integers(0, 27), st.sampled_from(['lstat', 'lstat', 'remove'])), min_size=1, max_size=3))]
     else:
         case['faults'] = []
+    # server time zone (ages and T stay instants; only their local-time spelling depends on it)
+    case['tz'] = draw(st.sampled_from(['UTC', 'UTC', 'UTC'] + ZONES[1:] + (['America/Los_Angeles', 'Asia/Kolkata']
+                                                                           if backend in ('sqlite',) else [])))
+    # deep pyramids: full extent only (a tile walk over 12+ levels is out of budget), content at one-digit and
+    # two-digit levels so that level names that are prefixes of each other (1 / 10-19, 2 / 20) meet
+    if not only_tilewalk and draw(st.integers(0, 99)) < 12:
+        n = draw(st.integers(12, 21))
+        case['grid'] = {'kind': 'deep', 'levels': n, 'tile': 256}
+        if backend in ('file:reverse_tms', 'file:quadkey'):
+            case['backend'] = backend = draw(st.sampled_from(['file:tms', 'file:tc', 'geopackage_levels', 'sqlite']))
+            if backend not in TIMESTAMP_BACKENDS and case['mode'] == 'before':
+                case['mode'] = 'all'
+        pool_ = [l for l in (0, 1, 2, 3, 10, 11, 12, 13, 19, 20) if l < n]
+        low = draw(st.sampled_from([1, 2, 1, 2, 0, 3]))
+        high = draw(st.sampled_from([l for l in pool_ if l >= 10]))
+        more = draw(st.sets(st.sampled_from(pool_), max_size=3))
+        content = sorted(set([low, high]) | more)
+        case['content_levels'] = content
+        case['levels'] = _draw_levels(draw, content, n)
+        case['cov'] = None
+        case['twin'] = False
+        case['faults'] = [] if not backend.startswith('file:') else case['faults']
     return case
 
 
@@ -250,7 +299,7 @@ def cases(draw, only_tilewalk=False):
 
 def grid_conf(g):
     kind, n, ts = g['kind'], g['levels'], g.get('tile', 256)
-    if kind == 'webmerc':
+    if kind in ('webmerc', 'deep'):
         c = {'srs': 'EPSG:3857', 'origin': 'nw', 'num_levels': n}
     elif kind == 'merc_sw':
         c = {'srs': 'EPSG:3857', 'origin': 'sw', 'num_levels': n}
@@ -304,7 +353,13 @@ def cache_conf(name, backend, grids, case, root):
 
 
 def iso(ts):
-    return datetime.datetime.fromtimestamp(int(ts), datetime.timezone.utc).strftime('%Y-%m-%dT%H:%M:%S')
+    """`remove_before: time:` strings mean server-local time (mktime of the naive value): written in the local
+    time of the case's zone; iso_meaning() is what the C library makes of such a string (DST gaps / overlaps)"""
+    return time.strftime('%Y-%m-%dT%H:%M:%S', time.localtime(int(ts)))
+
+
+def iso_meaning(s):
+    return time.mktime(time.strptime(s, '%Y-%m-%dT%H:%M:%S'))
 
 
 def write_configs(case, root, cov_override=None):
@@ -350,8 +405,10 @@ def write_configs(case, root, cov_override=None):
         T = case['T0']
         if tkind == 'time':
             task['remove_before'] = {'time': iso(T)}
+            T = iso_meaning(iso(T))
         elif tkind == 'time_dt':
-            task['remove_before'] = {'time': datetime.datetime.fromtimestamp(T, datetime.timezone.utc).replace(tzinfo=None)}
+            task['remove_before'] = {'time': datetime.datetime(*time.localtime(T)[:6])}
+            T = iso_meaning(iso(T))
         elif tkind == 'mtime':
             ref = os.path.join(root, 'reference.time')
             with open(ref, 'w') as f:
@@ -363,7 +420,7 @@ def write_configs(case, root, cov_override=None):
             task['remove_before'] = dict(case['delta'])
             delta = datetime.timedelta(**case['delta']).total_seconds()
             T = time.time() - delta
-            info['T_slack'] = 600.0
+            info['T_slack'] = 600.0 if (case.get('tz') or 'UTC') == 'UTC' else 4300.0
         if mode == 'before':
             info['T'] = T
             if backend not in TIMESTAMP_BACKENDS:
@@ -378,7 +435,7 @@ def write_configs(case, root, cov_override=None):
     elif mode == 'default':
         if backend in TIMESTAMP_BACKENDS:
             info['T'] = time.time()
-            info['T_slack'] = 600.0
+            info['T_slack'] = 600.0 if (case.get('tz') or 'UTC') == 'UTC' else 4300.0
         else:
             info['remove_all'] = True   # documented: caches without timestamps -> remove everything
 
@@ -888,9 +945,9 @@ def run_once(case, root, st_, cov_mode, pool='inline'):
             if has_ts:
                 off = age
                 if slack:
-                    off = (1 if age > 0 else -1) * max(abs(age), 900.0)
+                    off = (1 if age > 0 else -1) * max(abs(age), slack + 300.0)
                     if age == 0:
-                        off = -900.0
+                        off = -(slack + 300.0)
                 base = T if T is not None else now - 86400.0
                 ts = base + off
             color = (10, 200, 30) if (coord[0] + coord[1]) % 2 else (200, 10, 30)
@@ -947,6 +1004,8 @@ def run_once(case, root, st_, cov_mode, pool='inline'):
             for c, m in model.items():
                 if m['loc']:
                     own.add(os.path.relpath(m['loc'], root_main).split(os.sep)[0])
+            fmt = {'file:tc': '%02d', 'file:mp': '%02d', 'file:tms': '%d'}.get(backend, 'L%02d')
+            genuine = set(fmt % lv_ for lv_ in range(n))   # names that really are level directories of this cache
             for z in sorted(sel)[:3] + [0]:
                 for name in ('%d' % z, '%02d' % z, 'L%02d' % z, '%02d.bak' % z):
                     if backend.startswith('compact') and name == 'L%02d' % z:
@@ -957,7 +1016,7 @@ def run_once(case, root, st_, cov_mode, pool='inline'):
                         continue
                     if backend == 'file:tms' and name == '%d' % z:
                         continue
-                    if name in own:
+                    if name in own or name in genuine:
                         continue
                     plant('decoy-dir', os.path.join(root_main, name, 'x', 'y.dat'))
         if case.get('link_sc') and backend.startswith('file:'):
@@ -1073,6 +1132,14 @@ def run_once(case, root, st_, cov_mode, pool='inline'):
                 off = m['ts'] - T
                 lim = 1.0 + slack
                 age = 'old' if off < -lim else ('new' if off > lim else 'band')
+                if backend == 'sqlite' and age != 'band':
+                    # sqlite keeps last_modified as a local-time string: around a DST change local strings are not
+                    # monotonic / not unique, so their order can differ from the order of the instants - either way
+                    ls_t, ls_T = _local_string(m['ts']), _local_string(T)
+                    back = time.mktime(time.strptime(ls_t, '%Y-%m-%d %H:%M:%S'))
+                    if ((m['ts'] < T) != (ls_t < ls_T)) or back != m['ts'] // 1:
+                        age = 'band'
+                        res['classes'].append('tile:band-dst-local-string')
             else:
                 age = 'old' if case.get('t_future') else 'new'
             if geom_eff is None:
@@ -1209,7 +1276,6 @@ _OPEN = None
 
 def check_case(case, st_, base=None, pool='inline', honour_exclusions=True):
     global _OPEN
-    _utc()
     _quiet_logging()
     if _OPEN is None:
         # VERIF_IGNORE_OPEN_FINDINGS=1: search without the exclusions (used to verify proposed fixes on a
@@ -1221,6 +1287,7 @@ def check_case(case, st_, base=None, pool='inline', honour_exclusions=True):
             st_.excluded[why] += 1
             return None
     root = _scratch('c12-', base)
+    prev_tz = _set_tz(case.get('tz') or 'UTC')
     try:
         r = run_once(case, os.path.join(root, 'a'), st_, 'as-is', pool)
         verdicts = list(r['verdicts'])
@@ -1237,7 +1304,9 @@ def check_case(case, st_, base=None, pool='inline', honour_exclusions=True):
             if diff & band:
                 st_.notes['strategies differ inside the accepted bands'] += 1
     finally:
+        _restore_tz(prev_tz)
         shutil.rmtree(root, ignore_errors=True)
+    classes.append('tz:' + (case.get('tz') or 'UTC'))
     classes.append('mode:' + case['mode'] + ('/' + case['tkind'] if 'before' in case['mode'] else ''))
     classes.append('levels:' + (case['levels'][0] if case['levels'] else 'all'))
     if case['cov'] is not None:
